@@ -197,6 +197,19 @@ def job(cfg):
         check("mat @ vec", A @ v, per_point(Ne, nPg, mm, ("F", A), ("F", v)), True)
         check("mat @ const mat", A @ Cst[2], per_point(Ne, nPg, lambda x: mm(x, Cst[2]), ("F", A)), True)
         check("mat @ const vec", A @ Cst[1], per_point(Ne, nPg, lambda x: mm(x, Cst[1]), ("F", A)), True)
+        # constant tensor on the LEFT of a field (operand order constant-field)
+        def guarded(label, fn, want, want_fe):
+            try:
+                got = fn()
+            except Exception as e:
+                res.record(f"{tag} {label}", Outcome("cex", env=dict(ctx().shadow), how="shadow", detail=repr(e)[:120]), lambda env, e=e: (True, {"op": label, "raised": repr(e)[:200]}), key=f"{tag} {label}")
+                return
+            check(label, got, want, want_fe)
+
+        guarded("const mat @ vec", lambda: Cst[2] @ v, per_point(Ne, nPg, lambda x: mm(Cst[2], x), ("F", v)), True)
+        guarded("const mat @ mat", lambda: Cst[2] @ A, per_point(Ne, nPg, lambda x: mm(Cst[2], x), ("F", A)), True)
+        guarded("const vec @ mat", lambda: Cst[1] @ A, per_point(Ne, nPg, lambda x: mm(Cst[1], x), ("F", A)), True)
+        guarded("const vec @ vec", lambda: Cst[1] @ v, per_point(Ne, nPg, lambda x: mm(Cst[1], x), ("F", v)), True)
         check("vec.dot(vec)", v.dot(w), per_point(Ne, nPg, mm, ("F", v), ("F", w)), True)
         check("mat.dot(vec)", A.dot(v), per_point(Ne, nPg, mm, ("F", A), ("F", v)), True)
         check("mat.dot(mat)", A.dot(B), per_point(Ne, nPg, mm, ("F", A), ("F", B)), True)
@@ -242,6 +255,40 @@ def job(cfg):
         for how, got in (("method", A.sum(axis=axis)), ("np.sum", np.sum(A, axis=axis))):
             want_fe = keeps and np.ndim(got) >= 2
             check(f"sum axis={axis} via {how}", got, w, want_fe)
+    # mean and var through the same wrappers (var = mean(x^2) - mean(x)^2 is a polynomial identity; numpy computes it through arithmetic
+    # on intermediate arrays, which must not be re-read as fields)
+    for axis in [0, 1, 2, -1, (2, 3)]:
+        axes = tuple(sorted({a % base.ndim for a in (axis if isinstance(axis, tuple) else (axis,))}, reverse=True))
+        keeps = all(a >= 2 for a in axes)
+
+        def plain_mean(arr):
+            w_ = arr
+            n_ = 1
+            for ax in axes:
+                n_ *= w_.shape[ax]
+                acc = None
+                for k in range(w_.shape[ax]):
+                    sl = np.take(w_, k, axis=ax)
+                    acc = sl if acc is None else acc + sl
+                w_ = np.asarray(acc, dtype=object)
+            return w_ * Fraction(1, n_)
+
+        m1 = plain_mean(base)
+        m2 = plain_mean(base * base)
+        for how, fn in (("method", lambda: A.mean(axis=axis)), ("np.mean", lambda: np.mean(A, axis=axis))):
+            try:
+                got = fn()
+            except Exception as e:
+                res.record(f"{tag} mean axis={axis} via {how}", Outcome("cex", env=dict(ctx().shadow), how="shadow"), lambda env, e=e: (True, {"raised": repr(e)[:200]}), key=f"{tag} mean axis={axis} via {how}")
+                continue
+            check(f"mean axis={axis} via {how}", got, m1, keeps and np.ndim(got) >= 2)
+        for how, fn in (("method", lambda: A.var(axis=axis)), ("np.var", lambda: np.var(A, axis=axis))):
+            try:
+                got = fn()
+            except Exception as e:
+                res.record(f"{tag} var axis={axis} via {how}", Outcome("cex", env=dict(ctx().shadow), how="shadow"), lambda env, e=e: (True, {"raised": repr(e)[:200]}), key=f"{tag} var axis={axis} via {how}")
+                continue
+            check(f"var axis={axis} via {how}", got, m2 - m1 * m1, keeps and np.ndim(got) >= 2)
     check("integrate()", A.integrate(), np.asarray(sum(base[:, p] for p in range(nPg)), dtype=object), False)
     # reshape typing
     r1 = A.reshape(Ne, nPg, dim * dim)
@@ -322,7 +369,55 @@ def _replay_keeps(out):
     return bool(bad), {"crosshair": out.strip()[:300], "concrete_mismatches": bad[:5]}
 
 
+def job_field(cfg):
+    """Field objects in every operand order: `c op field` and `field op c` with a symbolic scalar c equal the same operation on the field's array"""
+    from EasyFEA.FEM import Field, MatrixType
+    from EasyFEA.FEM._linalg import FeArray
+    from checks import simlib
+
+    res = JobResult(cfg)
+    c = new_context()
+    facade.install()
+    mesh = simlib.small_mesh("tri4")
+    g = mesh.groupElem
+    tag = "Field (scalar shape function of the active node, tri4 mesh)"
+    res.functions |= {"Field.__add__", "Field.__radd__", "Field.__sub__", "Field.__rsub__", "Field.__mul__", "Field.__rmul__", "Field.__truediv__", "Field.__rtruediv__", "Field.__call__"}
+    f = Field(g, 1, MatrixType.mass)
+    s_ = c.var("c", Fraction(1, 2), 4)
+    res.symbols = 1
+    base = np.asarray(f(), dtype=object)
+    baseq = np.array([Fraction(float(x)) for x in base.reshape(-1)], dtype=object).reshape(base.shape)
+    cases = [("c + field", lambda: s_ + f, baseq + s_), ("field + c", lambda: f + s_, baseq + s_), ("c - field", lambda: s_ - f, s_ - baseq), ("field - c", lambda: f - s_, baseq - s_),
+             ("c * field", lambda: s_ * f, baseq * s_), ("field * c", lambda: f * s_, baseq * s_), ("c / field", lambda: s_ / f, s_ / baseq), ("field / c", lambda: f / s_, baseq / s_)]
+    for label, fn, want in cases:
+        def rp(env, fn=fn, want=want, label=label):
+            full = {kk: float(v) for kk, v in {**c.shadow, **(env or {})}.items()}
+            cv = full[0]
+            f2 = Field(g, 1, MatrixType.mass)
+            arr = np.asarray(f2(), dtype=float)
+            got = {"c + field": lambda: cv + f2, "field + c": lambda: f2 + cv, "c - field": lambda: cv - f2, "field - c": lambda: f2 - cv, "c * field": lambda: cv * f2, "field * c": lambda: f2 * cv,
+                   "c / field": lambda: cv / f2, "field / c": lambda: f2 / cv, "2.5 - field": lambda: 2.5 - f2, "3 / field": lambda: 3.0 / f2}[label]()
+            ref = {"c + field": cv + arr, "field + c": arr + cv, "c - field": cv - arr, "field - c": arr - cv, "c * field": cv * arr, "field * c": arr * cv, "c / field": cv / arr, "field / c": arr / cv,
+                   "2.5 - field": 2.5 - arr, "3 / field": 3.0 / arr}[label]
+            d = float(np.abs(np.asarray(got, dtype=float) - ref).max())
+            return d > 1e-12, {"op": label, "c": cv, "max_abs_difference": d, "first_values_code": np.asarray(got, dtype=float).reshape(-1)[:3].tolist(), "first_values_expected": ref.reshape(-1)[:3].tolist()}
+
+        try:
+            with facade.symbolic():
+                got = np.asarray(fn(), dtype=object)
+        except Exception as e:
+            res.record(f"{tag}: {label}", Outcome("cex", env=dict(c.shadow), how="shadow", detail=repr(e)[:150]), rp, key=f"Field operand order: {label}")
+            continue
+        ok, where = zero_diff(got, np.asarray(want, dtype=object).reshape(got.shape))
+        res.record(f"{tag}: {label}", Outcome("held", how="normal-form") if ok else Outcome("cex", env=dict(c.shadow), how="shadow"), rp, key=f"Field operand order: {label}",
+                   sample=None if res.samples else {"config": tag, "obligation": "for all c: (c op field)[e,p] == c op field()[e,p] entrywise (rational identities in c)"})
+    res.twin(f"{tag} twin", True)
+    return res
+
+
 def run(cfg):
+    if cfg.get("field"):
+        return job_field(cfg)
     return job_crosshair(cfg) if cfg.get("crosshair") else job(cfg)
 
 
@@ -335,6 +430,7 @@ def main():
             continue
         configs.append({"Ne": Ne, "nPg": nPg, "dim": dim, "rank4": tier == "thorough" and dim == 3 and Ne * nPg <= 4})
     configs.append({"crosshair": True})
+    configs.append({"field": True})
     results = harness.run_jobs(run, configs)
     harness.finish(
         PID, results, t0=t0,
@@ -343,10 +439,10 @@ def main():
                     "tolerance 0; any non-zero difference is a counterexample at the shadow point, replayed numerically); result types checked structurally; "
                     "CrossHair (symbolic execution of Python with z3) decides _KeepsFeAxes for all axis tuples.",
         bound={"Ne,nPg,dim": "all of {1,2,3}^3 (thorough) / collisions + 7 mixed shapes (quick)", "ranks": "0,1,2 (4 when dim <= 2, and dim 3 on small Ne*nPg in thorough)",
-               "operators": "+ - * / (field-field with rank padding, field-const, const-field, scalars), unary/ufunc with out=, @, dot, ddot, T, Transpose, Trace, Det, Inv, TensorProd, sum over 12 axis specs (method and np.sum), integrate, reshape, broadcast"},
+               "operators": "+ - * / (field-field with rank padding, field-const, const-field, scalars), unary/ufunc with out=, @, dot, ddot, T, Transpose, Trace, Det, Inv, TensorProd, constant @ field, sum over 12 axis specs and mean / var over 5 (method and numpy function), integrate, reshape, broadcast; Field objects with a symbolic scalar in both operand orders"},
         symbolic=["every entry of every operand array"],
         assumptions=["rank/broadcast rule taken from the FeArray docstring: (Ne,nPg) axes line up on the left, tensor axes follow numpy's own (right-aligned) broadcasting at each point; plain arrays are constant tensors",
-                     "np.linalg.det/inv for dim > 3 (LAPACK) outside", "std/var/median/argmax reducers: typing only through sum's axis logic (same wrapper)"],
+                     "np.linalg.det/inv for dim > 3 (LAPACK) outside", "std/median/argmax reducers: not evaluated (mean and var are, through the method and the numpy function)"],
         source_files=["EasyFEA/FEM/_linalg.py"],
         rule="one job per (Ne, nPg, dim) + one CrossHair job; an obligation = one (operator, operand kinds) identity over all entries; non-trivial = symbolic entries",
         exhaustive=(tier == "thorough"),
